@@ -25,7 +25,7 @@ try:
         return r.returncode, re.findall(r"rule=(\S+) construct=(\S+)", r.stdout)
     rc, viol = run(prop)
     cross = []
-    if rc != 1:
+    if rc != 1 and os.environ.get('SEED_NOCROSS') != '1':
         for i in range(1,20):
             p = "C%02d"%i
             if p == prop: continue
